@@ -95,7 +95,7 @@ fn run_generic<K: KeyT, V: ValT>(prop: Prop, spec: &RunSpec, want_transcript: bo
     if want_transcript {
         w.transcript = Some(Vec::new());
     }
-    let leak_check = true;
+    let mut leak_check = true;
     let mut stopped = false;
     let hmode = spec.cfg.map_hashers.first().or(spec.cfg.set_hashers.first()).map_or(0, |h| h.mode as u8);
     for (i, op) in spec.ops.iter().enumerate() {
@@ -139,7 +139,15 @@ fn run_generic<K: KeyT, V: ValT>(prop: Prop, spec: &RunSpec, want_transcript: bo
         }
         if let Some((site, _)) = so.injected {
             *out.faults.entry(format!("panic@{}", site.name())).or_insert(0) += 1;
-            if prop == Prop::C17 {
+            leak_check = false;
+            if prop == Prop::C08 {
+                // C08 also covers states reached through a caught panic: the model adopts what
+                // lookups find, and every iterator is then judged against that
+                let interrupted_clone_from = matches!(op, Op::CloneFrom { .. } | Op::SCloneFrom { .. });
+                if interrupted_clone_from || w.adopt_by_lookup().is_err() {
+                    stopped = true;
+                }
+            } else if prop == Prop::C17 {
                 // the model is stale after an interrupted call: adopt what the collections hold
                 // (C07 judges that state; here only the two builds are compared) and go on
                 let interrupted_clone_from = matches!(op, Op::CloneFrom { .. } | Op::SCloneFrom { .. });
